@@ -188,9 +188,9 @@ def finding_of(text, r):
     return None
 
 
-def oracle(ctx, text, strict, r):
+def oracle(ctx, text, strict, r, inp=None):
     """the property, applied to the observed behaviour of Read(text); returns True when it holds"""
-    inp = {'text': text, 'strict': strict}
+    inp = inp or {'text': text, 'strict': strict}
     ok = True
     if r['cls'] not in ALLOWED:
         what = ('Read(text) does not return within %gs' % TIMEOUT_S) if r['cls'] == 'hang' else \
@@ -211,9 +211,15 @@ def oracle(ctx, text, strict, r):
                           inp, expected='RINGSyntaxError for text + %r' % sentinel(), observed=r2)
             ok = False
         n = impl_consumed(text, strict)
+        if n is None:       # Read takes the enhanced dictionary whatever `strict` says (notes/C09.md)
+            n = impl_consumed(text, not strict)
         if n is not None and n != len(text):
             ctx.violation('accepted text was not consumed in full: parser stopped at index %d of %d' % (n, len(text)), inp,
                           expected=len(text), observed=n)
+            ok = False
+        if n is None:
+            ctx.violation('Read(text) returns a query for a text its own parser does not accept: the text was not consumed',
+                          inp, expected='RINGSyntaxError', observed=dict(r, parser=impl_parse(text, False).get('cls')))
             ok = False
     return ok
 
@@ -625,7 +631,161 @@ def generate_inputs(ctx):
     # random text
     for _ in range(ctx.n(350, 8000)):
         add('random', G.random_text(rng))
+    # would-be layout: remarks in the styles of other languages, block remarks, line continuations, exotic blanks — one per
+    # text, at a token boundary of a text laid out over several lines, most often as a `commented-out' tail of a text that
+    # is then incomplete; every opener in turn (lib_ringgen.junk_texts)
+    really_valid = valid[:ctx.n(160, 3000) + ctx.n(260, 5000)]
+    for _ in range(ctx.n(120, 1500)):
+        toks = rng.choice(really_valid if rng.random() < 0.8 else valid)
+        for kind, text in G.junk_texts(rng, toks[:60], 7):
+            add(kind, text)
+    # texts that are the names of things that exist in this environment (files, directories, devices, programs)
+    for t in existing_paths():
+        add('path', t, False)
     return out
+
+
+def existing_paths():
+    import sys
+    import pgradd
+    root = os.path.dirname(pgradd.__file__)
+    cands = ['/', '.', '..', '/etc/passwd', '/etc/hostname', '/proc/self/status', '/proc/self/cmdline', '/dev/null', sys.executable,
+             pgradd.__file__, os.path.join(root, 'data', 'BensonGA', 'scheme.yaml'), os.path.join(root, 'data', 'BensonGA', 'library.yaml'),
+             root, os.path.join(root, 'data'), os.path.relpath(pgradd.__file__), os.path.relpath(root), '~', os.path.expanduser('~'),
+             'file://' + pgradd.__file__, os.devnull]
+    return [c for c in dict.fromkeys(cands) if c]
+
+
+# ---------------------------------------------------------------------- the environment: files lying around
+FS_CONTENT = {
+    'valid': 'fragment zz{\n C labeled c1\n H labeled h1 single bond to c1\n}\n',
+    'rule': ('rule r{reactant r1{C labeled c1 H labeled h1 single bond to c1} break bond (c1, h1) '
+             'increase number of radical (c1) increase number of radical (h1)}'),
+    'invalid_multiline': 'fragment zz{\n C labeled c1\n\n\n   H labeled',
+    'undefined_label': 'fragment zz{C labeled c1 H labeled h1 single bond to q9}',
+    'binary': b'\xff\xfe\x00\x80RING\xc3(',
+    'empty': '',
+}
+FS_KINDS = sorted(FS_CONTENT) + ['dir', 'symlink']
+FS_NAMES = ['water.ring', 'notes.txt', 'table.bin', 'a', 'C', 'fragment', 'rule', 'x.yaml', 'scheme.yaml', 'c1', '.hidden', 'data',
+            'README', 'fragment a{C labeled c1}', 'fragment a{C labeled c1', 'f.ring ', ' f.ring', 'é.ring', '٣', 'a b', '-',
+            '~', '*', '{}', '$HOME', 'fragment', 'C labeled c1']
+
+
+def fs_name_ok(t):
+    """the text can be the name of a file in a directory"""
+    try:
+        b = t.encode('utf-8')
+    except UnicodeEncodeError:
+        return False
+    return 0 < len(b) <= 200 and '/' not in t and '\x00' not in t and t not in ('.', '..')
+
+
+def fs_make(root, files):
+    import shutil
+    shutil.rmtree(root, ignore_errors=True)
+    os.makedirs(root)
+    for f in files:
+        path = os.path.join(root, f['name'])
+        os.makedirs(os.path.dirname(path), exist_ok=True)
+        if f['kind'] == 'dir':
+            os.makedirs(path, exist_ok=True)
+        elif f['kind'] == 'symlink':
+            target = os.path.join(root, '_target_of_links')
+            with open(target, 'w') as fh:
+                fh.write(FS_CONTENT['valid'])
+            if not os.path.lexists(path):
+                os.symlink(target, path)
+        else:
+            c = FS_CONTENT[f['kind']]
+            with open(path, 'wb') as fh:
+                fh.write(c if isinstance(c, bytes) else c.encode('utf-8'))
+
+
+def fs_text(case, root):
+    """the text of a case: recorded literally, or — for absolute paths — relative to the environment directory of this run"""
+    return os.path.join(root, case['abs_of']) if case.get('abs_of') is not None else case['text']
+
+
+def fs_read_in(root, cases, ctx=None):
+    """Read every case's text with `root` as the working directory; -> outcomes (the property oracle is applied when ctx is given)"""
+    old = os.getcwd()
+    out = []
+    try:
+        os.chdir(root)
+        for c in cases:
+            text = fs_text(c, root)
+            r = impl_read(text, c['strict'])
+            out.append(r)
+            if ctx is not None:
+                oracle(ctx, text, c['strict'], r, inp=fs_input(c))
+    finally:
+        os.chdir(old)
+    return out
+
+
+def fs_input(c):
+    return {k: c[k] for k in ('text', 'abs_of', 'strict', 'files') if k in c}
+
+
+def fs_run(ctx, cases, tag='fs'):
+    """Each case = a text + files lying around.  The text is read (A) from a working directory that holds the files and (B)
+    from the same place after the files are gone; the outcome must be the same (a text means what it says, whatever the
+    environment holds), and in (A) it must be an outcome the property allows.  -> number of cases that differ"""
+    env = os.path.join(ctx.scratch, tag, 'env')
+    files = []
+    seen = set()
+    for c in cases:
+        for f in c['files']:
+            if f['name'] not in seen:
+                seen.add(f['name'])
+                files.append(f)
+    before = len(ctx.violations)
+    fs_make(env, files)
+    with_files = fs_read_in(env, cases, ctx)
+    fs_make(env, [])
+    without = fs_read_in(env, cases)
+    bad = 0
+    for c, a, b in zip(cases, with_files, without):
+        ctx.count('fs_cases')
+        ctx.count('fs_' + c.get('form', 'name') + '_' + '+'.join(sorted({f['kind'] for f in c['files']})))
+        if a != b:
+            bad += 1
+            ctx.violation('the outcome of Read(text) depends on files lying around: read from a working directory that holds '
+                          'the listed files, and again after they are gone', fs_input(c), expected=b, observed=a)
+    return bad + len(ctx.violations) - before
+
+
+def fs_cases(ctx, items):
+    """texts x files: names a user might have lying around, a sample of this run's generated texts that can be file names
+    (valid fragments, truncations, random text), each as the bare name, ./name, sub/name and the absolute path; the file holds
+    valid RING, a rule, invalid multi-line RING, undefined labels, non-UTF-8 bytes, nothing, or is a directory / a symlink"""
+    rng = ctx.rng
+    names = list(dict.fromkeys(FS_NAMES))
+    reserved = set(names) | {'sub', '_target_of_links'}
+    pool = sorted({t for _, t, _ in items if fs_name_ok(t) and t not in reserved})
+    names += rng.sample(pool, min(len(pool), ctx.n(60, 600)))
+    cases = []
+    k = 0
+    for nm in names:
+        if not fs_name_ok(nm):
+            continue
+        k += 1
+        for form in (['name', './', 'sub/', 'abs'] if nm in FS_NAMES else [rng.choice(['name', 'name', './', 'abs'])]):
+            # one kind per file: the bare name, ./name and the absolute path denote the same file
+            kind = FS_KINDS[(k + (3 if form == 'sub/' else 0)) % len(FS_KINDS)]
+            rel = 'sub/' + nm if form == 'sub/' else nm
+            c = {'strict': False, 'files': [{'name': rel, 'kind': kind}], 'form': form}
+            if form == 'abs':
+                c['text'], c['abs_of'] = '<working directory>/' + rel, rel
+            else:
+                c['text'] = {'name': nm, './': './' + nm, 'sub/': rel}[form]
+            cases.append(c)
+    return cases
+
+
+def fs_check(ctx, items):
+    fs_run(ctx, fs_cases(ctx, items))
 
 
 # ---------------------------------------------------------------------- the check
@@ -752,6 +912,7 @@ def run(ctx):
         check_texts(ctx, [('corpus', inp['text'], bool(inp.get('strict', False)))], batch)
     items = generate_inputs(ctx)
     check_texts(ctx, items, batch)
+    fs_check(ctx, items)
     recursion_probe(ctx)
     check_assumptions(ctx)
     finish_batch(ctx, batch)
@@ -787,6 +948,8 @@ def replay(ctx, rec, record=False):
     RDLogger.DisableLog('rdApp.*')
     load_own_findings(ctx)
     inp = rec.get('input', rec)
+    if 'files' in inp:       # a text read with files lying around
+        return fs_run(ctx, [dict(inp, strict=bool(inp.get('strict', False)))], tag='fs-replay') == 0
     text, strict = inp['text'], bool(inp.get('strict', False))
     before = len(ctx.violations)
     r = impl_read(text, strict)
